@@ -66,6 +66,10 @@ CHECKS = {
          "For each of ~185k functions compiled from the repository scripts, core.yl and the C05/C06/C07/C08/C18 generator corpora, every abstract state (pc, height) is explored (39M states quick) including exceptional and finally-return edges, with the structural invariants of the property checked in every state and one height per pc; with the instruction-trace hook ~190k concretely executed (function, pc, height) points must lie in the abstract set; for every jump kind a body is sized (operand measured from the emitted code) so that the distance is 65534..65537, and every count limit (locals, captures, parameters, arguments, elements, interpolation parts, constants) is straddled: rejected with a compile error or exactly the expected output.",
          "One open finding (KF-C04-01, finally entered at two heights) is attributed only when all of a function's issues vanish with exactly that abstract edge removed. Variable identity on every path is decided behaviourally by C05/C06.",
          "5/C04"),
+ "C01": ("exhaustive enumeration of programs x GC schedules on the real collector (schedule hook; swept objects quarantined so every later touch is reported)",
+         "Every heap-shape program (root kind x holder chain of length <= 2 over 17 holder kinds x 19 referent kinds, 12k programs) and the C05/C06/C07/C08/C18 corpora run under never (comparison), always (collect at every allocation) and, for the small programs, only{i} for every allocation index (all pairs in the thorough tier): no use-after-free event (dereference of a swept object, open captured variable into a swept fiber stack, object swept while borrowed), output identical to the never-collect run, no crash.",
+         "`always` dominates every other schedule under the quarantine (argued in DESIGN.md and validated by the only{i} runs: 0 counterexamples). One open finding (KF-C01-01) attributed only when the first event is the dangling captured variable of an abandoned fiber.",
+         "5/C01"),
 }
 NOT_YET = "check not built yet in this revision of /verif (work in progress; see DESIGN.md section 10)"
 
